@@ -276,7 +276,28 @@ Fixpoint args_ok (ps : list pkind) (args : list akind) : option err :=
   | _, _ => None
   end.
 
-(* apply_args_to_closure, then fold_function *)
+(* What a bare or qualified name is when it stands in a relation position (the relation-typed parameters of
+   from / join / append / intersect / remove, resolved in the `default_db` namespace).  resolve_function_args shadows
+   `this` and `that` while relational arguments are resolved, so columns and input aliases are NOT candidates there;
+   resolve_ident_core looks the name up directly first -- a root-level declaration (let-table, let-constant, function),
+   a parameter or a std name hides the database -- and only a name that matches nothing becomes a database table
+   (`default_db._infer`).  None = the lookup itself is an error (ambiguous). *)
+Definition shadowed (sc : scope) : scope :=
+  mkScope (s_root sc) (mkFrame [] []) None (s_param sc) (s_std sc).
+
+Definition rel_arg_kind (sc : scope) (id : ident) : option akind :=
+  match lookup (shadowed sc) id with
+  | [] => Some ARel
+  | [c] => Some (match c with
+                 | CRoot NTable | CStd NTable | CParam NTable => ARel
+                 | CRoot NFunc | CStd NFunc | CParam NFunc => AFunc
+                 | _ => AScalar
+                 end)
+  | _ :: _ :: _ => None
+  end.
+
+(* apply_args_to_closure (every named argument must match a NAMED parameter -- positional parameter names do not count;
+   of several unknown ones the alphabetically first is reported), then fold_function *)
 Definition apply_fn (f : fsig) (args : list akind) (named : list str) : applied :=
   match first_unknown named (fs_named f) with
   | Some _ => AErr EUnknownNamed
